@@ -179,8 +179,8 @@ def gen_cases(rng, n, quick, extreme=False):
     else:
         opsq = ["refine", "uniform", "griddify"]
         tg = av.BIGDEC_TARGETS[:14:2] + [2048] if extreme else av.BIGDEC_TARGETS
-        bigdec = [av.gen_big_decimal(rng, t, opsq[(i + rng.randrange(3)) % 3] if t < 4000 else "refine")
-                  for i, t in enumerate(tg)]
+        bigdec = [av.gen_big_decimal(rng, t, opsq[(i + rng.randrange(3)) % 3] if t < 4000 else "refine",
+                                     exact=t < 2000 and i % 5 == 4) for i, t in enumerate(tg)]
     n = max(n - len(bigdec), 0)
     n_hist = (n * 9) // 20
     n_tmpl = min(n_hist // 3, 3 * len(ac.QKINDS) * len(ac.TKINDS))
